@@ -75,9 +75,9 @@ CLAIMS = {
         "design_ref": "DESIGN.md §6 C17",
     },
     "C14": {
-        "level": "Proof of the struct-field half: tags carry the exact property name for every configured tag, JSONName is the property name, the final base name (after an explicit identifier override) is the one recorded for de-duplication.",
+        "level": "Proof, for all strings and with no bound on their length (loop invariants, quantified SMT), that Identifierize and IdentifierFromFileName return a non-empty text of letters and decimal digits whose first rune is upper case (a valid exported Go identifier), under the stated precondition that the configured capitalizations are alphanumeric; proof of the struct-field half: tags carry the exact property name for every configured tag, JSONName is the property name, the final base name (after an explicit identifier override) is the one recorded for de-duplication; distinct type names (uniqueTypeName).",
         "note": "Functions under contract, obligation families, known findings and repaired defects for this property: DESIGN.md section 0 (row C14). The property quantifies over all schemas; what is decided are contracts on the functions that carry its boundary-sensitive logic, scenario contracts on arms of the recursive generator and flow/sweep obligations; the composition through the whole generator is argued in DESIGN.md, not machine-checked.",
-        "technique": "contract-based deductive verification: VCs from go/ssa discharged by SMT",
+        "technique": "contract-based deductive verification: VCs from go/ssa discharged by SMT; loop-invariant rule with quantified rune-sequence obligations for the identifier state machine (z3 5.1 / cvc5 / z3 4.8 raced)",
         "design_ref": "DESIGN.md §6 C14",
     },
     "C18": {
